@@ -1100,3 +1100,138 @@ Definition spec_ok (p : String.string * String.string) : bool :=
 
 Lemma table_meets_spec : forallb spec_ok legacy_spec = true.
 Proof. vm_compute. reflexivity. Qed.
+
+(* ---------------------------------------------------------------------------------------------- *)
+(* the intended tree exists for every regular legacy tree: literals without backslash, DECIMAL tokens, any
+   operators, calls of table functions with a number of arguments the migrator accepts (templates: exactly
+   the placeholders; joins: at least one; per-parameter migrators: between one and the number of parameter
+   migrators), calls of unknown functions whose name is one Excellent3 NAME, context references whose
+   migration is a canonically printed expression *)
+
+Definition defaults_ok (e : text * cmig) : Prop :=
+  match snd e with
+  | Params _ defaults _ => Forall (fun d => canon d <> None) (tl defaults)
+  | _ => True
+  end.
+
+Lemma table_defaults_ok : Forall defaults_ok legacy_table.
+Proof.
+  unfold legacy_table.
+  repeat (apply Forall_cons; [cbn [defaults_ok snd tl]; try exact I; repeat constructor; vm_compute; discriminate|]).
+  apply Forall_nil.
+Qed.
+
+Definition call_regular (fname : text) (n : nat) : Prop :=
+  match lookup fname legacy_table with
+  | None => name_ok3 fname = true
+  | Some AsIs => True
+  | Some (Rename _) => True
+  | Some (Template f _) => n = tmpl_arity f
+  | Some (Join _ _) => (1 <= n)%nat
+  | Some (Params _ _ pms) => (1 <= n <= length pms)%nat
+  end.
+
+Inductive regular : e1 -> Prop :=
+| RStr s : Forall (fun c => c <> c_bslash) s -> regular (E1Str (legacy_quote s))
+| RDec raw : num_ok raw = true -> regular (E1Dec raw)
+| RTrue : regular E1True
+| RFalse : regular E1False
+| RRef n : regular (E1Ref n)
+| RParen x : regular x -> regular (E1Paren x)
+| RNeg x : regular x -> regular (E1Neg x)
+| RBin o a b : regular a -> regular b -> regular (E1Bin o a b)
+| RCall f args : Forall regular args -> call_regular (lower f) (length args) -> regular (E1Call f args).
+
+Lemma pm_tree_total m t : exists t', pm_tree m t = Some t'.
+Proof.
+  destruct m; cbn [pm_tree].
+  - eexists; reflexivity.
+  - destruct (atoi (print3 t)) as [z|]; [|eexists; reflexivity].
+    destruct (decremented_keeps_negative && (z <? 0)%Z); eexists; reflexivity.
+  - unfold param_by_spaces. destruct (text_eqb (trim_space (lower (print3 t))) t_true); vm_compute; eexists; reflexivity.
+Qed.
+
+Lemma params_tree_total : forall pms old defaults,
+  (old = [] -> Forall (fun d => canon d <> None) defaults) ->
+  (old <> [] -> Forall (fun d => canon d <> None) (tl defaults)) ->
+  exists ts, params_tree pms old defaults = Some ts.
+Proof.
+  induction pms as [|m pms IH]; intros old defaults H0 H1; cbn [params_tree].
+  - eexists; reflexivity.
+  - destruct old as [|o old'].
+    + destruct defaults as [|d defaults']; [eexists; reflexivity|].
+      specialize (H0 eq_refl). inversion H0 as [|? ? Hd Hr]; subst.
+      destruct (canon d) as [dt|]; [|contradiction].
+      destruct (pm_tree_total m dt) as [x Ex]. rewrite Ex.
+      destruct (IH [] defaults' (fun _ => Hr) (fun C => match C eq_refl with end)) as [r Er]. rewrite Er.
+      eexists; reflexivity.
+    + destruct (pm_tree_total m o) as [x Ex]. rewrite Ex.
+      assert (Ht : Forall (fun d => canon d <> None) (tl defaults)) by (apply H1; discriminate).
+      destruct (IH old' (tl defaults)) as [r Er].
+      * intros _. exact Ht.
+      * intros _. destruct (tl defaults) as [|a b]; [constructor|]. inversion Ht; assumption.
+      * rewrite Er. eexists; reflexivity.
+Qed.
+
+Lemma call_tree_total fname ts :
+  call_regular fname (length ts) -> exists t, call_tree fname ts = Some t.
+Proof.
+  unfold call_regular, call_tree. intros H.
+  destruct (lookup fname legacy_table) as [m|] eqn:El.
+  - destruct (lookup_In _ _ _ El) as (k' & Hin & Hk). subst k'.
+    pose proof templates_closed as TC. rewrite Forall_forall in TC. specialize (TC _ Hin).
+    pose proof table_defaults_ok as TD. rewrite Forall_forall in TD. specialize (TD _ Hin).
+    unfold entry_closed in TC. unfold defaults_ok in TD. cbn [fst snd] in TC, TD.
+    destruct m as [|n|f precs|sep p|n defaults pms].
+    + eexists; reflexivity.
+    + eexists; reflexivity.
+    + destruct TC as (_ & s & Hs & Hw & _). unfold tmpl_tree. rewrite H, Nat.eqb_refl, Hs, Hw. eexists; reflexivity.
+    + destruct TC as (o & Ho & _). rewrite Ho. destruct ts as [|t0 r]; [cbn in H; lia|]. eexists; reflexivity.
+    + destruct H as [H1 H2]. apply Nat.leb_le in H2. rewrite H2.
+      destruct (params_tree_total pms ts defaults) as [ps Ep].
+      * intros E. subst ts. cbn in H1. lia.
+      * intros _. exact TD.
+      * rewrite Ep. eexists; reflexivity.
+  - rewrite H. eexists; reflexivity.
+Qed.
+
+Section Total.
+  Variable ctxmap : text -> text.
+  Variable raw_dates : bool.
+  Hypothesis Hctx : forall n, canon (ctxmap n) <> None.
+
+  Lemma all_some_total args :
+    Forall (fun a => regular a -> exists t, mt ctxmap raw_dates a = Some t) args -> Forall regular args ->
+    exists ts, all_some (map (mt ctxmap raw_dates) args) = Some ts /\ length ts = length args.
+  Proof.
+    induction 1 as [|a r Ha Hr IH]; intros R.
+    - exists []. split; reflexivity.
+    - inversion R as [|? ? Ra Rr]; subst. destruct (Ha Ra) as [t Et]. destruct (IH Rr) as (ts & E & L).
+      exists (t :: ts). cbn [map all_some]. rewrite Et, E. split; [reflexivity | cbn [length]; rewrite L; reflexivity].
+  Qed.
+
+  Theorem mt_total : forall e, regular e -> exists t, mt ctxmap raw_dates e = Some t.
+  Proof.
+    induction e using e1_ind'; intros R; inversion R; subst; cbn [mt].
+    - rewrite literal_text_ok by assumption. eexists; reflexivity.
+    - match goal with H : num_ok _ = true |- _ => rewrite H end. eexists; reflexivity.
+    - eexists; reflexivity.
+    - eexists; reflexivity.
+    - specialize (Hctx n). destruct (canon (ctxmap n)); [eexists; reflexivity | contradiction].
+    - match goal with H : regular e |- _ => destruct (IHe H) as [t Et] end. rewrite Et. eexists; reflexivity.
+    - match goal with H : regular e |- _ => destruct (IHe H) as [t Et] end. rewrite Et. eexists; reflexivity.
+    - match goal with Ha : regular e1, Hb : regular e2 |- _ => destruct (IHe1 Ha) as [ta Ea]; destruct (IHe2 Hb) as [tb Eb] end.
+      rewrite Ea, Eb. eexists; reflexivity.
+    - match goal with Ha : Forall regular args |- _ => destruct (all_some_total args H Ha) as (ts & E & L) end.
+      rewrite E. apply call_tree_total. rewrite L. assumption.
+  Qed.
+End Total.
+
+(* [regular] is satisfiable by a tree that used to be migrated wrongly: POWER(1+2, "a""b") *)
+Example regular_example :
+  regular (E1Call (s2t "POWER"%string) [E1Bin OAdd (E1Dec [49]) (E1Dec [50]); E1Str (legacy_quote [97; 34; 98])]).
+Proof.
+  apply RCall.
+  - repeat constructor; discriminate.
+  - vm_compute. reflexivity.
+Qed.
